@@ -759,22 +759,32 @@ static const Canned l_Canned[] = {
 	{ "Array(get_object(ApiUser, \"c19-user\").password)", "(call (type Array) (index (obj c19-user) (str password)))", 1 },
 	{ "String(log(\"x\"))", "(call (type String) (call (fn System#log) (str x)))", 1 },
 	/* unsafe natives as callbacks of every higher-order safe native */
-	{ "[ \"C19Global\" ].map(globals.remove)", "(mcall (array (str C19Global)) map (index (getScope globals) (str remove)))", 0 },
-	{ "[ \"C19Global\" ].filter(globals.remove)", "(mcall (array (str C19Global)) filter (index (getScope globals) (str remove)))", 0 },
-	{ "[ \"C19Global\" ].any(globals.remove)", "(mcall (array (str C19Global)) any (index (getScope globals) (str remove)))", 0 },
-	{ "[ \"C19Global\" ].all(globals.remove)", "(mcall (array (str C19Global)) all (index (getScope globals) (str remove)))", 0 },
-	{ "[ \"C19HofR_%S\", 42 ].reduce(globals.set)", "(mcall (array (str C19HofR_%S) (num 42)) reduce (index (getScope globals) (str set)))", 0 },
-	{ "[ \"C19HofS_%S\", 42 ].sort(globals.set)", "(mcall (array (str C19HofS_%S) (num 42)) sort (index (getScope globals) (str set)))", 0 },
-	{ "[ 1 ].map(log)", "(mcall (array (num 1)) map (var log))", 0 },
-	{ "[ 1 ].filter(log)", "(mcall (array (num 1)) filter (var log))", 0 },
-	{ "[ 1 ].any(log)", "(mcall (array (num 1)) any (var log))", 0 },
-	{ "[ 1 ].all(log)", "(mcall (array (num 1)) all (var log))", 0 },
-	{ "[ 1, 2 ].reduce(log)", "(mcall (array (num 1) (num 2)) reduce (var log))", 0 },
-	{ "[ 2, 1 ].sort(log)", "(mcall (array (num 2) (num 1)) sort (var log))", 0 },
-	{ "[ 9 ].map(C19Arr.add)", "(mcall (array (num 9)) map (index (var C19Arr) (str add)))", 0 },
-	{ "[ get_object(Host, \"c19-host\") ].map((h) => { h.display_name = \"x\" })", "(mcall (array (num 1)) map (function lambda (num 1)))", 0 },
-	{ "[ [ \"C19Nested_%S\", 1 ] ].map((p) => p.reduce(globals.set))", "(mcall (array (num 1)) map (function lambda (num 1)))", 0 },
-	{ "[ \"C19Global\" ].map(globals.remove.call)", "(mcall (array (str C19Global)) map (index (index (getScope globals) (str remove)) (str call)))", 0 },
+	{ "[ \"C19Global\" ].map(globals.remove)", "(mcall (array (str C19Global)) map (index (getScope globals) (str remove)))", 1 },
+	{ "[ \"C19Global\" ].filter(globals.remove)", "(mcall (array (str C19Global)) filter (index (getScope globals) (str remove)))", 1 },
+	{ "[ \"C19Global\" ].any(globals.remove)", "(mcall (array (str C19Global)) any (index (getScope globals) (str remove)))", 1 },
+	{ "[ \"C19Global\" ].all(globals.remove)", "(mcall (array (str C19Global)) all (index (getScope globals) (str remove)))", 1 },
+	{ "[ \"C19HofR_%S\", 42 ].reduce(globals.set)", "(mcall (array (str C19HofR_%S) (num 42)) reduce (index (getScope globals) (str set)))", 1 },
+	{ "[ \"C19HofS_%S\", 42 ].sort(globals.set)", "(mcall (array (str C19HofS_%S) (num 42)) sort (index (getScope globals) (str set)))", 1 },
+	{ "[ 1 ].map(log)", "(mcall (array (num 1)) map (fn System#log))", 1 },
+	{ "[ 1 ].filter(log)", "(mcall (array (num 1)) filter (fn System#log))", 1 },
+	{ "[ 1 ].any(log)", "(mcall (array (num 1)) any (fn System#log))", 1 },
+	{ "[ 1 ].all(log)", "(mcall (array (num 1)) all (fn System#log))", 1 },
+	{ "[ 1, 2 ].reduce(log)", "(mcall (array (num 1) (num 2)) reduce (fn System#log))", 1 },
+	{ "[ 2, 1 ].sort(log)", "(mcall (array (num 2) (num 1)) sort (fn System#log))", 1 },
+	{ "[ 9 ].map(C19Arr.add)", "(mcall (array (num 9)) map (index (var C19Arr) (str add)))", 1 },
+	{ "[ get_object(Host, \"c19-host\") ].map((h) => { h.display_name = \"x\" })", "(mcall (array (num 1)) map (function lambda (num 1)))", 1 },
+	{ "[ [ \"C19Nested_%S\", 1 ] ].map((p) => p.reduce(globals.set))", "(mcall (array (num 1)) map (function lambda (num 1)))", 1 },
+	{ "[ \"C19Global\" ].map(globals.remove.call)", "(mcall (array (str C19Global)) map (index (index (getScope globals) (str remove)) (str call)))", 1 },
+	/* method calls on a COMPUTED receiver (the callee is still an indexer: GetReference path, expression.cpp:454-455) */
+	{ "(false || globals).set(\"C19CR_%S\", 1)", "(mcall (lor (bool 0) (getScope globals)) set (str C19CR_%S) (num 1))", 1 },
+	{ "(true && C19Arr).add(1)", "(mcall (land (bool 1) (var C19Arr)) add (num 1))", 1 },
+	{ "(null || C19Dict).remove(\"a\")", "(mcall (lor (empty) (var C19Dict)) remove (str a))", 1 },
+	{ "[ globals ][0].set(\"C19CRi_%S\", 1)", "(mcall (getScope globals) set (str C19CRi_%S) (num 1))", 1 },
+	{ "(false || get_object(Host, \"c19-host\")).modify_attribute(\"display_name\", \"cr\")", "(mcall (lor (bool 0) (obj c19-host)) modify_attribute (str display_name) (str cr))", 1 },
+	{ "(C19Arr + null).add(1)", "(mcall (binop add (var C19Arr) (empty)) add (num 1))", 0 },
+	{ "(get_object(Host, \"c19-host\").groups + null).sort()", "(mcall (var C19Arr) sort)", 0 },
+	{ "(get_object(Host, \"c19-host\").vars.list - null).reverse()", "(mcall (var C19Arr) reverse)", 0 },
+	{ "(get_object(Host, \"c19-host\").vars + null).keys()", "(mcall (var C19Dict) keys)", 0 },
 	/* `using` imports: objects, dictionaries, namespaces */
 	{ "using C19Dict\na", "(dict 1 (empty) (varIn (var C19Dict) a))", 1 },
 	{ "using globals\nC19Global", "(dict 1 (empty) (varIn (getScope globals) C19Global))", 1 },
@@ -874,17 +884,17 @@ static Prog GenExpr(Rng& rng, int depth, int& id)
 			const char *m = hof[rng.below(6)];
 			if (rng.below(3) == 0) {     /* an unsafe native as the callback */
 				static const std::pair<const char *, const char *> cbs[] = {
-					{ "log", "(var log)" }, { "globals.set", "(index (getScope globals) (str set))" },
+					{ "log", "(fn System#log)" }, { "globals.set", "(index (getScope globals) (str set))" },
 					{ "globals.remove", "(index (getScope globals) (str remove))" }, { "C19Arr.add", "(index (var C19Arr) (str add))" },
 					{ "C19Dict.remove", "(index (var C19Dict) (str remove))" },
 				};
 				auto& cb = cbs[rng.below(5)];
 				return { std::string("[ \"C19Global\", 1 ].") + m + "(" + cb.first + ")",
-					std::string("(mcall (array (str C19Global) (num 1)) ") + m + " " + cb.second + ")", true };
+					std::string("(mcall (array (str C19Global) (num 1)) ") + m + " " + cb.second + ")", false };   /* the model interprets the higher-order natives */
 			}
 			Prog b = GenStmt(rng, depth - 1, id);
 			return { std::string("C19Arr.") + m + "((x) => { " + b.src + " })",
-				std::string("(mcall (var C19Arr) ") + m + " (function lambda (dict 1 " + b.abs + ")))", true };
+				std::string("(mcall (var C19Arr) ") + m + " (function lambda (dict 1 " + b.abs + ")))", false };
 		}
 	}
 }
@@ -1158,6 +1168,18 @@ static Object::Ptr TargetForH(const std::string& type)
 
 /* Every no_user_view field of every instantiable type, through every read path; whole-object serialisers once
  * per type.  Two visible fields per type as a control. */
+/* "passwords and the ticket salt" (properties.jsonl C19): pinned in lean/IcingaModel/C19/Spec.lean `secretAttrs`; field "" = any field of the type */
+static bool IsBaselineSecret(const std::string& type, const std::string& field)
+{
+	static const std::pair<const char *, const char *> base[] = {
+		{ "ApiUser", "password" }, { "ApiUser", "password_hash" }, { "ApiListener", "ticket_salt" },
+		{ "IdoMysqlConnection", "password" }, { "IdoPgsqlConnection", "password" }, { "IcingaDB", "password" },
+	};
+	for (auto& b : base)
+		if (type == b.first && (field.empty() || field == b.second)) return true;
+	return false;
+}
+
 static void GenHidden()
 {
 	std::vector<String> names;
@@ -1170,15 +1192,17 @@ static void GenHidden()
 		bool any = false;
 		for (int i = 0; i < t->GetFieldCount(); i++)
 			if (t->GetFieldInfo(i).Attributes & FANoUserView) any = true;
-		if (!any) continue;
+		if (!any && !IsBaselineSecret(tn.CStr(), "")) continue;
 		if (!TargetForH(tn.CStr())) continue;
 		int shown = 0;
 		for (int i = 0; i < t->GetFieldCount(); i++) {
 			Field f = t->GetFieldInfo(i);
 			bool nuv = (f.Attributes & FANoUserView) != 0;
-			if (!nuv && shown >= 2) continue;
-			if (!nuv) shown++;
 			std::string fn = f.Name;
+			/* the attributes the property names outright are read whatever the implementation's flag says (Spec.lean `secretAttrs`) */
+			bool base = IsBaselineSecret(tn.CStr(), fn);
+			if (!nuv && !base && shown >= 2) continue;
+			if (!nuv && !base) shown++;
 			const std::pair<const char *, std::string> paths[] = {
 				{ "dot", "obj." + fn },
 				{ "idx", "obj[\"" + fn + "\"]" },
@@ -1312,6 +1336,163 @@ static void GenLines(uint64_t seed, bool thorough)
 				op << "P " << site << " cmp=0 root=" << RootKind(src) << " abs=(call,(type," << tn << ")" << (*arg ? ",(num,1)" : "") << ")";
 				Observe(op.str(), site, src);
 			}
+	}
+
+	/* 1e. COMPUTED callees: FunctionCallExpression::DoEvaluate obtains the function either through GetReference (plain name,
+	 * a.b, a[b], *r) or, for every other callee expression, through Evaluate (expression.cpp:454-461); the whitelist test
+	 * (:481-482) must hold for BOTH.  Every callee-producing expression form x every kind of function without the flag
+	 * (namespace/array/dictionary/object prototype methods, global functions, script closures) + flagged ones as controls. */
+	{
+		struct Fn { const char *src, *abs, *args, *absArgs; bool cmp; };
+		static const Fn fns[] = {
+			{ "globals.set", "(index (getScope globals) (str set))", "\"C19CC_%S\", 1", " (str C19CC_%S) (num 1)", true },
+			{ "globals.remove", "(index (getScope globals) (str remove))", "\"C19Global\"", " (str C19Global)", true },
+			{ "log", "(fn System#log)", "\"cc\"", " (str cc)", true },
+			{ "C19Arr.add", "(index (var C19Arr) (str add))", "9", " (num 9)", true },
+			{ "C19Arr.clear", "(index (var C19Arr) (str clear))", "", "", true },
+			{ "C19Dict.remove", "(index (var C19Dict) (str remove))", "\"a\"", " (str a)", true },
+			{ "C19Dict.set", "(index (var C19Dict) (str set))", "\"cc\", 1", " (str cc) (num 1)", true },
+			{ "get_object(Host, \"c19-host\").vars.list.add", "(index (var C19Arr) (str add))", "\"cc\"", " (str cc)", true },
+			{ "get_object(Host, \"c19-host\").modify_attribute", "(index (obj c19-host) (str modify_attribute))", "\"display_name\", \"cc\"", " (str display_name) (str cc)", true },
+			{ "Internal.run_with_activation_context", "(fn System#log)", "() => { globals.C19CCa_%S = 1 }", " (str x)", false },
+			{ "((x) => { globals.C19CCl_%S = x })", "(function lambda (setScoped globals C19CCl_%S literal (var x)))", "1", " (num 1)", true },
+			{ "len", "(fn System#len)", "\"abc\"", " (str abc)", false },
+			{ "C19Arr.len", "(index (var C19Arr) (str len))", "", "", false },
+		};
+		struct Wrap { const char *pre, *post, *absPre, *absPost; };
+		static const Wrap wraps[] = {
+			{ "(false || ", ")", "(lor (bool 0) ", ")" },
+			{ "(true && ", ")", "(land (bool 1) ", ")" },
+			{ "(null || ", ")", "(lor (empty) ", ")" },
+			{ "(1 && \"x\" && ", ")", "(land (land (num 1) (str x)) ", ")" },
+			{ "((false || false) || ", ")", "(lor (lor (bool 0) (bool 0)) ", ")" },
+			{ "(false || (true && ", "))", "(lor (bool 0) (land (bool 1) ", "))" },
+			{ "(&", ").get()", "(mcall (ref ", ") get)" },                 /* a call that RETURNS the function */
+			{ "[ ", " ].reduce((a, b) => a)", "(mcall (array ", ") reduce (function lambda (var a)))" },
+			{ "{{ ", " }}()", "(call (function lambda ", "))" },
+		};
+		int k = 0;
+		for (const Fn& f : fns)
+			for (const Wrap& w : wraps) {
+				/* `&(lambda)` is not a reference; a lambda inside `{{ }}` etc. is fine */
+				if (std::string(w.pre) == "(&" && f.src[0] == '(') continue;
+				bool hoWrap = std::string(w.post).find("reduce") != std::string::npos || std::string(w.pre) == "{{ ";
+				for (int s = 0; s < (thorough ? l_SitesN : 2); s++) {
+					const char *site = l_Sites[(k++) % l_SitesN];
+					std::string src = Subst(std::string(w.pre) + f.src + w.post + "(" + f.args + ")", site);
+					std::string abs = Subst(std::string("(call ") + w.absPre + f.abs + w.absPost + f.absArgs + ")", site);
+					for (auto& ch : abs) if (ch == ' ') ch = ',';
+					std::ostringstream op;
+					op << "P " << site << " cmp=" << ((f.cmp && !hoWrap) ? 1 : 0) << " root=" << RootKind(src) << " abs=" << abs;
+					Observe(op.str(), site, src);
+				}
+			}
+	}
+
+	/* 1f. purely COMPUTATIONAL expressions over live shared containers: operators are free functions on values
+	 * (lib/base/value-operators.cpp) and the operator nodes (expression.cpp:193-447) only combine their operands' values, so
+	 * no expression built from operators alone - no assignment, no call - may change an attribute of a config object, a
+	 * global or a shared container, whatever the operand types.  Every binary operator x operand pairs, chains
+	 * `A op B op C` / `A op (B op C)` (the left operand of the outer node is then the inner node's result: a temporary for
+	 * some operand types, one of the operands themselves for others), unary operators, and the result fed to `in`. */
+	{
+		struct Od { const char *src, *abs; bool live; };
+		static const Od pool[] = {
+			{ "get_object(Host, \"c19-host\").groups", "(var C19Arr)", true },
+			{ "get_object(Host, \"c19-host\").vars.list", "(var C19Arr)", true },
+			{ "globals.C19Arr", "(var C19Arr)", true },
+			{ "globals.C19Frozen", "(var C19Arr)", true },
+			{ "get_object(Host, \"c19-host\").vars", "(var C19Dict)", true },
+			{ "globals.C19Dict", "(var C19Dict)", true },
+			{ "null", "(empty)", false },
+			{ "get_object(Host, \"c19-host\").vars.c19_unset", "(empty)", false },
+			{ "[ \"x\" ]", "(array (str x))", false },
+			{ "{ }", "(dict 0)", false },                       /* (a literal WITH members is an assignment: refused in a sandbox) */
+			{ "1", "(num 1)", false },
+			{ "\"s\"", "(str s)", false },
+		};
+		const int poolN = sizeof(pool) / sizeof(pool[0]);
+		struct Op { const char *src, *abs; };
+		static const Op ops[] = {
+			{ "+", "binop add" }, { "-", "binop subtract" }, { "*", "binop multiply" }, { "/", "binop divide" }, { "%", "binop modulo" },
+			{ "^", "binop xor" }, { "&", "binop binaryAnd" }, { "|", "binop binaryOr" }, { "<<", "binop shiftLeft" }, { ">>", "binop shiftRight" },
+			{ "==", "binop equal" }, { "!=", "binop notEqual" }, { "<", "binop lessThan" }, { ">", "binop greaterThan" },
+			{ "<=", "binop lessThanOrEqual" }, { ">=", "binop greaterThanOrEqual" }, { "in", "binop in_" }, { "!in", "binop notIn" },
+			{ "&&", "land" }, { "||", "lor" },
+		};
+		const int opsN = sizeof(ops) / sizeof(ops[0]);
+		int k = 0;
+		/* cmp: + and - are decided by the operand TYPES alone (value-operators.cpp:208-298), which the model carries */
+		auto emit = [&](const std::string& src, std::string abs, bool cmp = false) {
+			const char *site = l_Sites[(k++) % l_SitesN];
+			for (auto& ch : abs) if (ch == ' ') ch = ',';
+			std::ostringstream op;
+			op << "P " << site << " cmp=" << (cmp ? 1 : 0) << " root=" << RootKind(src) << " abs=" << abs;
+			Observe(op.str(), site, src);
+		};
+		auto bin = [&](const Op& o, const std::string& a, const std::string& b) { return "(" + a + " " + o.src + " " + b + ")"; };
+		auto binAbs = [&](const Op& o, const std::string& a, const std::string& b) { return std::string("(") + o.abs + " " + a + " " + b + ")"; };
+		/* pairs: every operator x every ordered pair with a live operand */
+		for (int o = 0; o < opsN; o++)
+			for (int a = 0; a < poolN; a++)
+				for (int b = 0; b < poolN; b++) {
+					if (!pool[a].live && !pool[b].live) continue;
+					/* quick tier: the comparison/bit operators on a seeded third of the pairs */
+					if (!thorough && o >= 2 && o < 16 && rng.below(3) != 0) continue;
+					emit(std::string(pool[a].src) + " " + ops[o].src + " " + pool[b].src, binAbs(ops[o], pool[a].abs, pool[b].abs), o < 2);
+				}
+		/* chains of three: exhaustive over the operand pool for the operators whose result can be a container (+, -, &&, ||)
+		 * in all four combinations of two of them and both associations; seeded for the others */
+		static const int cont[] = { 0, 1, 18, 19 };
+		for (int oi = 0; oi < 4; oi++)
+			for (int oj = 0; oj < 4; oj++) {
+				if (!thorough && oi >= 2 && oj >= 2) continue;      /* && / || only: result is always one of the operands */
+				for (int a = 0; a < poolN; a++)
+					for (int b = 0; b < poolN; b++)
+						for (int c = 0; c < poolN; c++) {
+							if (!pool[a].live && !pool[b].live && !pool[c].live) continue;
+							/* operands 1/3 (two live arrays) and 7 (unset) duplicate 0/2 and 6 in type: rotate them in the quick tier */
+							if (!thorough && (oi != oj || oi >= 2) && rng.below(4) != 0) continue;
+							if (!thorough && (a == 3 || b == 3 || c == 3 || a == 11 || b == 11 || c == 11) && rng.below(4) != 0) continue;
+							const Op& o1 = ops[cont[oi]]; const Op& o2 = ops[cont[oj]];
+							bool arith = oi < 2 && oj < 2;
+							if ((a + b + c) % 5 == 4)                /* every fifth also as A op (B op C) */
+								emit(std::string(pool[a].src) + " " + o1.src + " " + bin(o2, pool[b].src, pool[c].src),
+									binAbs(o1, pool[a].abs, binAbs(o2, pool[b].abs, pool[c].abs)), arith);
+							if ((oi < 2) == (oj < 2) && (oi < 2 || oi == oj))     /* same precedence class: left-associative as written */
+								emit(std::string(pool[a].src) + " " + o1.src + " " + pool[b].src + " " + o2.src + " " + pool[c].src,
+									binAbs(o2, binAbs(o1, pool[a].abs, pool[b].abs), pool[c].abs), arith);
+							else
+								emit(bin(o1, pool[a].src, pool[b].src) + " " + o2.src + " " + pool[c].src,
+									binAbs(o2, binAbs(o1, pool[a].abs, pool[b].abs), pool[c].abs));
+						}
+			}
+		int mixed = thorough ? 6000 : 700;
+		for (int t = 0; t < mixed; t++) {
+			int a = (int)rng.below(poolN), b = (int)rng.below(poolN), c = (int)rng.below(poolN), d = (int)rng.below(poolN);
+			if (!pool[a].live && !pool[b].live && !pool[c].live) a = (int)rng.below(6);
+			const Op& o1 = ops[rng.below(opsN)]; const Op& o2 = ops[rng.below(opsN)]; const Op& o3 = ops[rng.below(opsN)];
+			switch (rng.below(4)) {
+				case 0:     /* parenthesised left chain (precedence-independent) */
+					emit(bin(o2, bin(o1, pool[a].src, pool[b].src), pool[c].src), binAbs(o2, binAbs(o1, pool[a].abs, pool[b].abs), pool[c].abs));
+					break;
+				case 1:     /* four operands, left-deep */
+					emit(bin(o3, bin(o2, bin(o1, pool[a].src, pool[b].src), pool[c].src), pool[d].src),
+						binAbs(o3, binAbs(o2, binAbs(o1, pool[a].abs, pool[b].abs), pool[c].abs), pool[d].abs));
+					break;
+				case 2:     /* as in a filter: membership in a concatenation */
+					emit(std::string("\"x\" in ") + bin(o2, bin(o1, pool[a].src, pool[b].src), pool[c].src),
+						"(binop in_ (str x) " + binAbs(o2, binAbs(o1, pool[a].abs, pool[b].abs), pool[c].abs) + ")");
+					break;
+				default:    /* unary operator / array literal / conditional around an operator node */
+					switch (rng.below(3)) {
+						case 0: emit("!" + bin(o1, pool[a].src, pool[b].src), "(unop logicalNegate " + binAbs(o1, pool[a].abs, pool[b].abs) + ")"); break;
+						case 1: emit("[ " + bin(o1, pool[a].src, pool[b].src) + ", " + pool[c].src + " ]", "(array " + binAbs(o1, pool[a].abs, pool[b].abs) + " " + pool[c].abs + ")"); break;
+						default: emit("if (" + bin(o1, pool[a].src, pool[b].src) + ") { " + bin(o2, pool[a].src, pool[c].src) + " } else { " + bin(o3, pool[b].src, pool[c].src) + " }",
+							"(cond " + binAbs(o1, pool[a].abs, pool[b].abs) + " (dict 1 " + binAbs(o2, pool[a].abs, pool[c].abs) + ") (dict 1 " + binAbs(o3, pool[b].abs, pool[c].abs) + "))"); break;
+					}
+			}
+		}
 	}
 
 	/* 1d. the /v1/events path with SEVERAL subscribers on one event: every unordered pair of a pool of filters (values,
